@@ -26,6 +26,9 @@ structure SideSt where
   allowed : List (Nat × Int)
   /-- diagnosis only: expiries of timers that were superseded or cancelled before they ended -/
   stale : List (Nat × Int) := []
+  /-- diagnosis only: expiries that UpdateTimer actions proposed and the contract ignored because
+      a later-expiring timer was running (no replace) -/
+  ignored : List (Nat × Int) := []
   deriving Repr, Inhabited
 
 structure MonSt where
@@ -51,6 +54,7 @@ def applyActs (t : Int) (sd : SideSt) : List TAction → SideSt
                   stale := match sd.timers[m]?.join with
                     | some old => if changed && some old != v then (m, old) :: sd.stale else sd.stale
                     | none => sd.stale,
+                  ignored := if changed then sd.ignored else (m, t + dur * 1000) :: sd.ignored,
                   allowed := (m, t) :: sd.allowed,
                   required := if changed then ((m, t), (dur, replace)) :: sd.required else sd.required }
       | _ => sd
@@ -85,14 +89,16 @@ def stepEv (st : MonSt) (x : EvActs) : Except String MonSt := do
     | .timerEnd m =>
       -- diagnosis: a superseded / cancelled timer of this machine expired exactly now: it had
       -- already been turned into a queued TimerEnd when it was superseded
-      let tag := if sd.stale.contains (m, t) then "[S1-early-exec] " else ""
+      -- or: the running timer had already been turned into a queued TimerEnd, so the code saw
+      -- no timer running and started the shorter timer that the contract ignores
+      let tag := if sd.stale.contains (m, t) || sd.ignored.contains (m, t) then "[S1-early-exec] " else ""
       match sd.timers[m]?.join with
       | some exp =>
         if exp == t then pure { sd with timers := sd.timers.set m none }
         else throw s!"{tag}TimerEnd for a {sideName e.client} machine at another time than its timer expires | machine {m} at {t}, expiry {exp}"
       | none => throw s!"{tag}TimerEnd for a {sideName e.client} machine whose timer is not running | machine {m} at {t} (cancelled, superseded or already ended)"
     | _ => pure sd
-  let sd := { sd with stale := sd.stale.filter fun (_, exp) => exp ≥ t }
+  let sd := { sd with stale := sd.stale.filter (fun (_, exp) => exp ≥ t), ignored := sd.ignored.filter (fun (_, exp) => exp ≥ t) }
   pure (st.setSide e.client (applyActs t sd x.acts))
 
 def runMon (st : MonSt) : List EvActs → Option String
